@@ -27,6 +27,26 @@ NOT_APPLICABLE = {p: 'check under construction in this session; not claimed unti
                   for p in ['C%02d' % i for i in range(1, 21)]}
 
 PROPS = {
+    'C16': dict(
+        claimed=True,
+        level='fault_enumeration',
+        level_text="Generated histories are stopped at drawn points of their Persistence log (states reachable under C02) and the "
+                   "snapshot is damaged by a drawn set of 1-3 record faults (byte flip, truncation incl. to 0 and below 12 bytes, "
+                   "removal) plus stray entries; the adopted client is then driven against the reference broker. The oracle is a "
+                   "validity predicate: no fatal or panic, every damaged and every silently dropped record named by a warning, "
+                   "first connect succeeds, only genuinely saved packets are transmitted in original order, they complete, new "
+                   "identifiers do not collide. Damage sets are sampled, not enumerated.",
+        technique='property-based testing (rapid): generated histories x generated damage sets, validity-predicate oracle with reference broker',
+        rule="history = C01 action set without park/loseTail, Max 16 per level; 1-4 stop points per history; damage = 1-3 of "
+             "{flip byte (position, xor value), truncate to {0,1,11,12,len-1,len/2}, remove} on outbound PUBLISH/PUBREL records, "
+             "0-2 stray entries (garbage, empty, well-formed record of another type) under keys outside the identifier spaces. "
+             "Records forged with a valid checksum are not generated (property excludes them); damage to the client-identifier "
+             "record is excluded by construction while finding F17 is open (counted in excluded_by_known_finding). "
+             "Non-trivial: >= 1 damaged record among >= 2 pending ones.",
+        assumptions=ASSUME_SIM + ["a truncation to >= 12 bytes or a byte flip passes the 32-bit checksum with probability 2^-32; such forged-valid records are outside the property"],
+        quick=dict(engines=[rapid('^TestC16Damage', 800, steps=30), rapid('^TestC16KnownF17', 40, shards=1)]),
+        thorough=dict(engines=[rapid('^TestC16Damage', 20000, shards=14, steps=50, timeout=1500), rapid('^TestC16KnownF17', 200, shards=1)]),
+    ),
     'C17': dict(
         claimed=True,
         level='exploration',
